@@ -443,6 +443,8 @@ type applyOpts struct {
 	// patcher is resumed from a gob round trip of that checkpoint with a new pool and a new bowl
 	Interrupt int
 	Stops     *int
+	// OldEOF: the old build is served by readers that return the last bytes of a file together with io.EOF
+	OldEOF bool
 	// Gran > 1: the patch source restarts only at multiples of Gran (savior.Source.Resume returns where it really is)
 	Gran int64
 }
@@ -468,6 +470,9 @@ func realApplyPatch(patch []byte, o applyOpts) *applyResult {
 	res.P = p
 	mkPool := func() lake.Pool {
 		var tp lake.Pool = fspool.New(p.GetTargetContainer(), o.OldDir)
+		if o.OldEOF {
+			tp = &eofPool{Pool: tp}
+		}
 		if o.WrapPool != nil {
 			tp = o.WrapPool(tp, p.GetTargetContainer())
 		}
